@@ -206,7 +206,13 @@ func (db *ContractDB) LoadContractFile(path, pkgPath string) error {
 			cur = &Contract{Key: key, Pkg: pkgPath, Extern: ext, LoopInv: map[int][]Clause{}, LoopDec: map[int]Clause{}, Opts: map[string]string{}, File: path, Line: rc.line}
 			if old, dup := db.Funcs[key]; dup {
 				if !old.Extern && !ext {
-					return fmt.Errorf("%s:%d: duplicate contract for %s (first at %s:%d)", path, rc.line, key, old.File, old.Line)
+					// a second block for the same function (another property's contract file):
+					// its clauses are appended to the first block (files are loaded in sorted
+					// order, so the clause numbering is stable); options set later win
+					db.Dups = append(db.Dups, fmt.Sprintf("%s: contract continued at %s:%d (first block at %s:%d)", key, path, rc.line, old.File, old.Line))
+					cur = old
+					curLemma, curSpec = nil, nil
+					continue
 				}
 				if old.Extern && !ext {
 					// a verified contract replaces an extern stub written elsewhere
